@@ -99,7 +99,7 @@ class Check:
             self.build(q)
         files = [q.cfile] + [os.path.join(VERIF, 'rt', r) for r in q.rt]
         r = core.run_cbmc(files, name=q.name, defines=q.cbmc_defines, unwind=q.unwind, unwindset=q.unwindset, timeout=q.timeout,
-                          mem_gb=q.mem_gb, extra=q.extra_cbmc, trace_property=trace_property)
+                          mem_gb=q.mem_gb, extra=q.extra_cbmc, trace_property=trace_property, flags=getattr(q, 'cbmc_flags', None))
         if trace_property is None:
             q.result = r
             if not os.environ.get('VF_KEEP') and not getattr(q, 'keep_c', False):
@@ -170,7 +170,7 @@ class Check:
         path = os.path.join(d, re.sub(r'[^A-Za-z0-9_]', '_', q.name) + '.json')
         json.dump({'property': self.pid, 'query': q.name, 'harness': [os.path.relpath(s, VERIF) for s in q.srcs], 'defines': q.defines + q.cbmc_defines, 'stl': q.stl, 'native_extra': [r for r in ('rt/cube.c',) if os.path.basename(r) in q.rt], 'native_cpp': (['rt/rt_native_fs.cpp'] if 'rt_fs.c' in q.rt else []),
                    'failed_assertion': desc, 'nondet': values, 'repo_srcs': getattr(q, 'native_repo_srcs', []), 'shim': getattr(q, 'native_shim', False),
-                   'native_defines': getattr(q, 'native_defines', [])}, open(path, 'w'), indent=1)
+                   'native_defines': getattr(q, 'native_defines', []), 'native_racy': getattr(q, 'native_racy', {})}, open(path, 'w'), indent=1)
         return path
 
     def native_replay(self, path, extra_srcs=(), san=True, timeout=120, extra_flags=(), repo=None):
@@ -178,6 +178,8 @@ class Check:
         returns (reproduced: bool, output)"""
         rp = json.load(open(path))
         repo = repo or core.REPO
+        if rp.get('native_racy'):
+            repo = self.racy_copy(repo, rp['native_racy'])
         exe = self.ws.path('replay_%s' % os.path.basename(path).replace('.json', ''))
         srcs = [os.path.join(VERIF, s) for s in rp['harness']] + [os.path.join(VERIF, 'rt', 'rt_native.cpp')] + list(extra_srcs)
         srcs += [os.path.join(repo, s) for s in rp.get('repo_srcs', [])]
@@ -186,7 +188,7 @@ class Check:
         if rp.get('shim'):
             # schedule replay: <mutex>/<condition_variable>/<thread> come from /verif/shim (cooperative pthreads driven by the recorded schedule)
             srcs.append(os.path.join(VERIF, 'shim', 'vf_shim.cpp'))
-            shimflags = ['-I', os.path.join(VERIF, 'shim'), '-DVF_NO_MAIN=1']
+            shimflags = ['-I', os.path.join(VERIF, 'shim'), '-DVF_NO_MAIN=1'] + (['-DVF_RACY_WAIT_YIELD=1'] if rp.get('native_racy') else [])
         extra_flags = list(extra_flags) + shimflags + ['-D%s' % d for d in rp.get('native_defines', [])]
         cfiles = [os.path.join(VERIF, s) for s in rp.get('native_extra', [])]
         objs = []
@@ -212,13 +214,32 @@ class Check:
                     g.write('%d\n' % (val - (1 << 32) if val >= (1 << 31) else val))
                 else:
                     f.write('%s\n' % v['value'])
-        env = dict(os.environ, VF_REPLAY=vals, VF_SCHEDULE=schedf, ASAN_OPTIONS='detect_leaks=1:abort_on_error=0:exitcode=42:detect_stack_use_after_return=1', UBSAN_OPTIONS='print_stacktrace=1')
+        env = dict(os.environ, VF_REPLAY=vals, VF_SCHEDULE=schedf, ASAN_OPTIONS='detect_leaks=1:abort_on_error=0:exitcode=42:detect_stack_use_after_return=1' + os.environ.get('VF_ASAN_EXTRA', ''), UBSAN_OPTIONS='print_stacktrace=1')
         try:
             r = subprocess.run([exe], capture_output=True, text=True, errors='replace', timeout=timeout, env=env)
         except subprocess.TimeoutExpired:
             return False, 'native replay timed out'
         out = (r.stdout + r.stderr)[-4000:]
         return r.returncode != 0 and r.returncode != 3, 'exit=%d\n%s' % (r.returncode, out)
+
+    def racy_copy(self, repo, racy):
+        """scratch copy of the tree's include/ and src/ in which every access to the named racy fields (inside function bodies) goes through
+        vf_racy(): a scheduling point of the replay shim, at the places where the model has its racy scheduling points"""
+        dst = self.ws.path('racy_repo')
+        if os.path.exists(dst):
+            shutil.rmtree(dst)
+        os.makedirs(dst)
+        for d in ('include', 'src'):
+            shutil.copytree(os.path.join(repo, d), os.path.join(dst, d))
+        for rel, fields in racy.items():
+            f = os.path.join(dst, rel)
+            txt = open(f).read()
+            for fld in fields:
+                # not the declaration (`bool m_x = ...;` / `std::atomic<bool> m_x`), not a constructor initialiser `m_x(...)`
+                txt = re.sub(r'(?<!bool )(?<!> )(?<![\w.>])\b%s\b(?!\s*[({])' % re.escape(fld), 'vf_racy(%s)' % fld, txt)
+            txt = '#include "vf_racy_native.h"\n' + txt
+            open(f, 'w').write(txt)
+        return dst
 
     # ---------- classification ----------
     def classify(self, queries, finding_of=None, required_reach=None):
@@ -232,6 +253,18 @@ class Check:
                 self.broken.append('%s: unwinding assertion failed (bound too small): %s' % (q.name, [str(p_) for p_, d in r.failed if 'unwinding' in d][:4]))
                 continue
             bound_fail = [d for _, d in r.failed if d.startswith('BOUND:')]
+            prop_fail = [(p_, d) for p_, d in r.failed if not d.startswith('BOUND:')]
+            if bound_fail and prop_fail and getattr(q, 'bound_follows_property', False):
+                # e.g. a deadlock also makes "every thread finishes within K steps" fail: decide the property failure first; the bound
+                # failure is a consequence if that counterexample is confirmed (or is a listed finding)
+                before = len(self.violations) + len(self.known_hits)
+                allf = r.failed
+                r.failed = prop_fail
+                self.handle_failure(q, finding_of)
+                r.failed = allf
+                if len(self.violations) + len(self.known_hits) == before:
+                    self.broken.append('%s: stated bound exceeded: %s' % (q.name, bound_fail[:3]))
+                continue
             if bound_fail:
                 self.broken.append('%s: stated bound exceeded: %s' % (q.name, bound_fail[:3]))
                 continue
